@@ -58,6 +58,8 @@ pub fn run_auth(em: &mut Emitter, c: &Creds, chal: &[u8]) {
     let key = ntowfv2(&nt_hash, &c.user, &c.domain);
     crate::alloc_count::reset();
     let chal2 = chal.to_vec();
+    // a call that neither returns nor fails (a loop that makes no progress on some AV pair, say) is reported by the watchdog
+    watch_begin(&format!("ntlm_auth dom8={} usr8={} chal={}", hex(c.domain.as_bytes()), hex(c.user.as_bytes()), hex(chal)));
     let r = catch_unwind(AssertUnwindSafe(|| {
         let mut n = if c.from_hash { Ntlm::from_hash(c.domain.clone(), c.user.clone(), &nt_hash) } else { Ntlm::new(c.domain.clone(), c.user.clone(), c.password.clone()) };
         let mut first_neg = None;
